@@ -194,7 +194,7 @@ theorem mid_castle (T : ZTable) (p : Position) (side m : Nat) (hm : Mid T p) (hl
   unfold doMoveCastle
   generalize (if side = 0 then 0 else 7) = r at *
   have sq (f : Nat) (hf : f < 8) : mkSquare r f < p.board.length := by unfold mkSquare; omega
-  let p1 : Position := { p with halfmove := (p.halfmove + 1) % 256 }
+  let p1 : Position := { p with halfmove := (p.halfmove + 1) % 65536 }
   have hpk1 : PK T p1 := pk_congr T p p1 rfl rfl rfl hm.pk
   -- the two piece moves, for either wing: kf = king target file, rf/rt = rook files
   have key : ∀ kf rf rt, kf < 8 → rf < 8 → rt < 8 → kf ≠ 4 → rf ≠ 4 → rf ≠ kf → rt ≠ 4 → rt ≠ kf → rt ≠ rf →
